@@ -10,6 +10,7 @@
 
 #include <kernel/runtime.hpp>
 #include <kernel/util/pack.hpp>
+#include <kernel/util/binary_stream.hpp>
 #include <kernel/lafem/dense_vector.hpp>
 #include <kernel/lafem/dense_vector_blocked.hpp>
 #include <kernel/lafem/sparse_vector.hpp>
@@ -422,6 +423,55 @@ namespace
     for(Pack::Type t : {Pack::Type::I8, Pack::Type::I16, Pack::Type::I32, Pack::Type::I64}) { pack_roundtrip(i64, t, "int64 as I*"); pack_roundtrip(i32, t, "int as I*"); }
   }
 
+  // history on one BinaryStream (the in-memory stream CheckpointControl and the applications use): several containers
+  // back to back, one of them is overwritten in place by a container of the same shape, a further one is appended after
+  // everything was read once; every record must read back as what was written to it last.
+  void binary_stream_history(Gen& g)
+  {
+    BinaryStream bs;
+    const size_t nrec = 2 + g.idx(3);
+    std::vector<DenseVector<double, Index>> recs;
+    std::vector<std::streamoff> offs;
+    for(size_t r = 0; r < nrec; ++r)
+    {
+      DenseVector<double, Index> v(Index(1 + g.idx(20)));
+      for(Index i = 0; i < v.size(); ++i) v(i, g.val());
+      offs.push_back(std::streamoff(bs.tellp()));
+      v.write_out(FileMode::fm_dv, bs);
+      recs.push_back(std::move(v));
+    }
+    const std::streamoff end0 = std::streamoff(bs.tellp());
+    if(end0 != std::streamoff(bs.size())) sim::fail("BINARY_STREAM", "tellp() after sequential writes differs from the stream size");
+    // overwrite record k in place
+    const size_t k = g.idx(nrec);
+    for(Index i = 0; i < recs[k].size(); ++i) recs[k](i, g.val());
+    bs.seekp(offs[k]);
+    if(!bs.good()) sim::fail("BINARY_STREAM", "seekp() to the start of a stored record failed");
+    recs[k].write_out(FileMode::fm_dv, bs);
+    if(std::streamoff(bs.size()) != end0) sim::fail("BINARY_STREAM", "overwriting a record in place changed the stream size from " + std::to_string(end0) + " to " + std::to_string(bs.size()));
+    // read everything back
+    bs.seekg(0);
+    for(size_t r = 0; r < nrec; ++r)
+    {
+      if(std::streamoff(bs.tellg()) != offs[r]) sim::fail("BINARY_STREAM", "record " + std::to_string(r) + " does not start where it was written");
+      DenseVector<double, Index> w;
+      w.read_from(FileMode::fm_dv, bs);
+      if(w.size() != recs[r].size()) sim::fail("BINARY_STREAM", "record " + std::to_string(r) + " of " + std::to_string(nrec) + " read back with another length after record " + std::to_string(k) + " was overwritten in place");
+      for(Index i = 0; i < w.size(); ++i) if(w(i) != recs[r](i)) sim::fail("BINARY_STREAM", "record " + std::to_string(r) + " read back with other values after record " + std::to_string(k) + " was overwritten in place");
+    }
+    // append one more after reading, read it alone
+    DenseVector<double, Index> extra(Index(1 + g.idx(9)));
+    for(Index i = 0; i < extra.size(); ++i) extra(i, g.val());
+    bs.seekp(0, std::ios_base::end);
+    extra.write_out(FileMode::fm_dv, bs);
+    bs.seekg(end0);
+    if(!bs.good()) sim::fail("BINARY_STREAM", "seekg() to the start of the appended record failed");
+    DenseVector<double, Index> w;
+    w.read_from(FileMode::fm_dv, bs);
+    if(w.size() != extra.size()) sim::fail("BINARY_STREAM", "appended record read back with another length");
+    for(Index i = 0; i < w.size(); ++i) if(w(i) != extra(i)) sim::fail("BINARY_STREAM", "appended record read back with other values");
+  }
+
   template<typename DT_, typename IT_>
   void run_types(int kind, Gen& g, const Shape& sh)
   {
@@ -465,6 +515,7 @@ std::string harness_run()
     Gen g(gseed);
     g.zero_per_16 = zero_per_16;
     if((gseed & 3u) == 0u) pack_direct(g);
+    if((gseed & 12u) == 4u) binary_stream_history(g);
     switch(types)
     {
     case 0: run_types<double, std::uint64_t>(kind, g, sh); break;
